@@ -65,6 +65,10 @@ const PROBES: &[&str] = &[
     "als ja { stel a = 1 }",
     "functie f() { 1 } f(1, 2)",
     "functie h(a, b, c) { [a, b, c] } h(1)",
+    // indices far outside a value, below its start and past its end, read and written
+    "stel s = string(123); s[-9] = \"x\"; s",
+    "stel a = [1, string(2)]; a[-5] = 0; a",
+    "[\"abc\"[-7], [1, 2][-3], string(12)[2]]",
 ];
 
 /// The batch: generated programs over one small shared identifier pool, probe programs that use a
